@@ -295,8 +295,8 @@ func init() {
 		Rule:        "(1) script: scripts of 2..14 top-level statements mixing one-line statements, multi-line blocks, multi-line array literals and strings, strings and comments containing { } [ ] \" \\\" ; and line breaks, comment-only and blank lines, random layout (comments before line breaks, blank lines in blocks, newlines in arrays, random blanks), with and without a final newline; the real binary is run in file mode (stdout compared with the reference's statement-by-statement output and with the in-process statement-by-statement script-mode execution), in REPL mode with the text piped in (stdout compared byte for byte with banner + output + '> value' lines from the reference), and -eval on the first statement; exit status must be 0. (2) eval: one self-contained block (function/closure/generator definitions and uses, ending in a write) in all three modes. non-trivial = >= 2 statements / every eval case; distinct by script text.",
 		Assumptions: []string{"scripts contain no runtime errors (reports embed pointer values), no carriage returns and end every statement at a line break", "REPL result quoting of strings (Display) is the documented difference between the modes"},
 		Families: []core.Family{
-			{Name: "script", Count: countFn(400, 20000), Run: c16Script},
-			{Name: "eval", Count: countFn(300, 15000), Run: c16Eval},
+			{Name: "script", Count: countFn(1200, 20000), Run: c16Script},
+			{Name: "eval", Count: countFn(800, 15000), Run: c16Eval},
 		},
 		Sanitize: []string{"script"},
 		Floors:   []core.Floor{{Key: "file_runs", Quick: 400, Thor: 20000}, {Key: "repl_runs", Quick: 400, Thor: 20000}, {Key: "eval_runs", Quick: 400, Thor: 20000}, {Key: "tag:script:", Quick: 4, Thor: 4}},
